@@ -509,7 +509,61 @@ func verifFSSet(path string, exists bool) {
 }
 
 func verifExplore(preemptions int) {}
-func verifJoin()                   { time.Sleep(200 * time.Millisecond) }
+// verifJoin: wait for background goroutines to go quiet: every registered feed queue empty
+// and the number of running feeds unchanged for 200 ms (at most 5 s).
+func verifJoin() {
+	deadline := time.Now().Add(5 * time.Second)
+	time.Sleep(50 * time.Millisecond)
+	stable, last := 0, int32(-1)
+	for time.Now().Before(deadline) {
+		n := atomic.LoadInt32(&activeFeedCount)
+		if verifFeedQueuesEmpty() && n == last {
+			stable++
+		} else {
+			stable = 0
+		}
+		last = n
+		if stable >= 8 {
+			return
+		}
+		time.Sleep(25 * time.Millisecond)
+	}
+}
+
+func verifFeedQueuesEmpty() bool {
+	if cluster == nil {
+		return true
+	}
+	cluster.lock.Lock()
+	var bs []*Bucket
+	for _, b := range cluster.buckets {
+		bs = append(bs, b)
+	}
+	cluster.lock.Unlock()
+	for _, b := range bs {
+		b.mutex.Lock()
+		var feeds []*dcpFeed
+		for _, fs := range b.collectionFeeds {
+			feeds = append(feeds, fs...)
+		}
+		b.mutex.Unlock()
+		for _, f := range feeds {
+			if f == nil {
+				continue
+			}
+			f.events.cond.L.Lock()
+			n := 0
+			if f.events.list != nil {
+				n = f.events.list.Len()
+			}
+			f.events.cond.L.Unlock()
+			if n > 0 {
+				return false
+			}
+		}
+	}
+	return true
+}
 func verifLiveThreads() int        { time.Sleep(100 * time.Millisecond); return int(atomic.LoadInt32(&activeFeedCount)) }
 func verifFireTimers() int         { return 0 }
 
